@@ -976,7 +976,7 @@ class IssuerFingerprint(Signature):
         elif self.version == 5:  # pragma: no cover
             fpr_len = 32
         else:  # pragma: no cover
-            fpr_len = self.header.length - 1
+            fpr_len = self.header.length - 2          # what is left after the type and the version octets
 
         self.issuer_fingerprint = packet[:fpr_len]
         del packet[:fpr_len]
@@ -1048,7 +1048,7 @@ class IntendedRecipient(Signature):
         elif self.version == 5:  # pragma: no cover
             fpr_len = 32
         else:  # pragma: no cover
-            fpr_len = self.header.length - 1
+            fpr_len = self.header.length - 2          # what is left after the type and the version octets
 
         self.intended_recipient = packet[:fpr_len]
         del packet[:fpr_len]
